@@ -2,6 +2,8 @@
 Export of textX based models and metamodels to dot file.
 """
 
+import contextlib
+import os
 from dataclasses import dataclass
 from typing import Dict, Iterable, List, Union
 from typing import Optional as Opt
@@ -298,8 +300,26 @@ set namespaceSeparator .
         return f"{base.fqn} <|-- {special.fqn}\n"
 
 
+@contextlib.contextmanager
+def _open_for_export(file_name):
+    """
+    Opens a temporary file next to `file_name` for writing and renames it to
+    `file_name` only when the export is complete. If the export fails the
+    target is left untouched and no partially written file stays behind.
+    """
+    tmp_name = f"{file_name}.{os.getpid()}.tmp"
+    try:
+        with open(tmp_name, "w", encoding="utf-8") as f:
+            yield f
+        os.replace(tmp_name, file_name)
+    except BaseException:
+        with contextlib.suppress(OSError):
+            os.remove(tmp_name)
+        raise
+
+
 def metamodel_export(metamodel, file_name, renderer=None):
-    with open(file_name, "w", encoding="utf-8") as f:
+    with _open_for_export(file_name) as f:
         metamodel_export_tofile(metamodel, f, renderer)
 
 
@@ -413,7 +433,7 @@ def model_export(model, file_name, repo=None):
     Returns:
         Nothing
     """
-    with open(file_name, "w", encoding="utf-8") as f:
+    with _open_for_export(file_name) as f:
         model_export_to_file(f, model, repo)
 
 
